@@ -307,4 +307,255 @@ theorem inv_natypes_min (s : State) (h : Inv s) (o : Nat) (ho : o < s.objs.lengt
   rw [hcq] at hq; injection hq with hq; subst hq
   exact Rat.not_lt.mpr h1
 
+/-! ## symbols and masses are padded to the number of atom types once read -/
+
+/-- `symbols` getter: the returned tuple is what the system now stores and is at least as long as
+    `natypes` of the system's atoms (evaluated in the state the getter leaves). -/
+theorem symbols_padded (s : State) (h : Inv s) (i : Nat) (hi : i < s.syss.length) (l : List (Option String))
+    (s' : State) (hrun : symbolsGet i s = (.ok l, s')) :
+    (s'.sys i).symbols = l ∧ ∃ nt, (natypes (s'.sys i).atoms s').1 = .ok nt ∧ nt ≤ l.length := by
+  obtain ⟨⟨κ, hinv⟩, _⟩ := h
+  have := inv_symbolsGet hinv i
+  unfold Post at this
+  rw [hrun] at this
+  obtain ⟨hk, hres⟩ := this
+  obtain ⟨hl, hnt⟩ := hres l rfl
+  obtain ⟨nt, hnt, hle⟩ := hnt hi
+  exact ⟨hl.symm, nt, by rw [← hnt]; exact ntOf_congr hk.1 i hi, hle⟩
+
+/-- `masses` getter: likewise. -/
+theorem masses_padded (s : State) (h : Inv s) (i : Nat) (hi : i < s.syss.length) (l : List (Option Rat))
+    (s' : State) (hrun : massesGet i s = (.ok l, s')) :
+    (s'.sys i).masses = l ∧ ∃ nt, (natypes (s'.sys i).atoms s').1 = .ok nt ∧ nt ≤ l.length := by
+  obtain ⟨⟨κ, hinv⟩, _⟩ := h
+  have := inv_massesGet hinv i
+  unfold Post at this
+  rw [hrun] at this
+  obtain ⟨hk, hres⟩ := this
+  obtain ⟨hl, hnt⟩ := hres l rfl
+  obtain ⟨nt, hnt, hle⟩ := hnt hi
+  exact ⟨hl.symm, nt, by rw [← hnt]; exact ntOf_congr hk.1 i hi, hle⟩
+
+/-- `System.natypes` is at least `atoms.natypes`. -/
+theorem sysNatypes_ge (s : State) (h : Inv s) (i : Nat) (hi : i < s.syss.length) (n : Nat) (s' : State)
+    (hrun : sysNatypes i s = (.ok n, s')) : ∃ nt, (natypes (s'.sys i).atoms s').1 = .ok nt ∧ nt ≤ n := by
+  obtain ⟨⟨κ, hinv⟩, _⟩ := h
+  have := inv_sysNatypes hinv i
+  unfold Post at this
+  rw [hrun] at this
+  obtain ⟨hk, hres⟩ := this
+  obtain ⟨nt, hnt, hle⟩ := hres n rfl hi
+  exact ⟨nt, by rw [← hnt]; exact ntOf_congr hk.1 i hi, hle⟩
+
+/-- the setters pad as well: after `system.symbols = value` the stored tuple is `value` padded with
+    `None` up to `natypes`. -/
+theorem symbolsSet_pads (s : State) (h : Inv s) (i : Nat) (hi : i < s.syss.length) (value : List (Option String))
+    (s' : State) (hrun : symbolsSet i value s = (.ok (), s')) :
+    ∃ nt, (natypes (s.sys i).atoms s).1 = .ok nt ∧ (s'.sys i).symbols = padTo value nt ∧
+      nt ≤ (s'.sys i).symbols.length ∧ value.length ≤ (s'.sys i).symbols.length := by
+  obtain ⟨⟨κ, hinv⟩, _⟩ := h
+  have := inv_symbolsSet hinv i value
+  unfold Post at this
+  rw [hrun] at this
+  obtain ⟨nt, hnt, hsym⟩ := this.2 rfl hi
+  exact ⟨nt, hnt, hsym, by rw [hsym]; exact (padTo_length _ _).1, by rw [hsym]; exact (padTo_length _ _).2⟩
+
+/-! ## refusals: one lemma per refusal branch (nothing is defaulted) -/
+
+theorem eq_of_post {α : Type} {m : M α} {s : State} {x : Except Err α} {y : State}
+    (h : Post m s (fun r s' => r = x ∧ s' = y)) : m s = (x, y) := Prod.ext h.1 h.2
+
+/-- `view[key] = value` with a first dimension that is neither 1 nor `natoms`: ValueError, nothing changes. -/
+theorem viewSet_len_mismatch_rejects (s : State) (o : Nat) (key : String) (src : Src) (d : Nat) (t : List Nat)
+    (hs : (srcVal s src).shape = d :: t) (h1 : d ≠ 1) (hn : d ≠ (s.obj o).natoms) :
+    viewSet o key src s = (.error .value, s) := by
+  apply eq_of_post
+  unfold viewSet
+  rw [post_bind_getS]
+  simp only []
+  have : viewBcast s (s.obj o).natoms src = fail .value := by
+    unfold viewBcast
+    simp only [hs, h1, hn, if_false, ne_eq, not_false_eq_true, if_true]
+  rw [this, post_bind_fail]
+  exact ⟨rfl, rfl⟩
+
+theorem mapM_num_total (cells : List Cell) (h : ∀ c ∈ cells, (c.num?).isSome) :
+    ∃ nums, cells.mapM Cell.num? = some nums := by
+  induction cells with
+  | nil => exact ⟨[], rfl⟩
+  | cons x t ih =>
+    obtain ⟨ns, hns⟩ := ih (fun c hc => h c (by simp [hc]))
+    have hx := h x (by simp)
+    cases hxn : x.num? with
+    | none => simp [hxn] at hx
+    | some q => exact ⟨q :: ns, by simp [List.mapM_cons, hxn, hns]⟩
+
+/-- the `np.min(value) < 1` test fires as soon as one cell of a numeric value is below 1. -/
+theorem guard_fires (cells : List Cell) (hnum : ∀ c ∈ cells, (c.num?).isSome) (c : Cell) (hc : c ∈ cells) (q : Rat)
+    (hq : c.num? = some q) (hlt : q < 1) :
+    ∃ nums m, cells.mapM Cell.num? = some nums ∧ listMin nums = some m ∧ m < 1 := by
+  obtain ⟨nums, hnums⟩ := mapM_num_total cells hnum
+  obtain ⟨q', hq', hcq'⟩ := mapM_option_fwd _ _ _ hnums c hc
+  rw [hq] at hcq'; injection hcq' with hcq'; subst hcq'
+  cases hm : listMin nums with
+  | none =>
+    cases nums with
+    | nil => simp at hq'
+    | cons x xs => simp [listMin] at hm
+  | some m =>
+    refine ⟨nums, m, hnums, hm, ?_⟩
+    have := listMin_le nums m hm q hq'
+    grind
+
+/-- whole-column assignment of atom types containing a value below 1: ValueError, nothing changes. -/
+theorem viewSet_atype_lt_one_rejects (s : State) (o : Nat) (v : Val) (t : List Nat)
+    (hs : v.shape = (s.obj o).natoms :: t) (hn1 : (s.obj o).natoms ≠ 1) (hpos : 0 < (s.obj o).natoms)
+    (hnum : ∀ c ∈ v.data, (c.num?).isSome) (c : Cell) (hc : c ∈ v.data) (q : Rat) (hq : c.num? = some q)
+    (hlt : q < 1) : viewSet o "atype" (.lit v) s = (.error .value, s) := by
+  apply eq_of_post
+  unfold viewSet
+  rw [post_bind_getS]
+  simp only []
+  have hb : viewBcast s (s.obj o).natoms (.lit v) = pure (.lit v) := by
+    unfold viewBcast
+    simp only [srcVal, hs, hn1, if_false, ne_eq, not_true_eq_false]
+    rfl
+  rw [hb, post_bind_pure]
+  obtain ⟨nums, m, h1, h2, h3⟩ := guard_fires v.data hnum c hc q hq hlt
+  have hg : viewGuard "atype" (s.obj o).natoms (srcVal s (.lit v)) = fail .value := by
+    unfold viewGuard
+    simp only [srcVal, hpos, and_self, if_true, h1, h2, h3]
+  rw [hg, post_bind_fail]
+  exact ⟨rfl, rfl⟩
+
+/-- indexed write of an atom type below 1 (`prop('atype', index, value)`): ValueError, nothing changes. -/
+theorem propSet_atype_lt_one_rejects (s : State) (o : Nat) (ix : Index) (v : Val)
+    (hnum : ∀ c ∈ v.data, (c.num?).isSome) (c : Cell) (hc : c ∈ v.data) (q : Rat) (hq : c.num? = some q)
+    (hlt : q < 1) : propSet o "atype" (some ix) v s = (.error .value, s) := by
+  apply eq_of_post
+  unfold propSet
+  simp only []
+  obtain ⟨nums, m, h1, h2, h3⟩ := guard_fires v.data hnum c hc q hq hlt
+  have hne : v.data ≠ [] := by intro h; rw [h] at hc; simp at hc
+  have hg : atypeGuard "atype" v = fail .value := by
+    unfold atypeGuard
+    simp only [hne, ne_eq, not_false_eq_true, and_self, if_true, h1, h2, h3]
+  rw [hg, post_bind_fail]
+  exact ⟨rfl, rfl⟩
+
+/-- a value numpy cannot broadcast to the selected rows: ValueError, nothing is written. -/
+theorem assign_shape_mismatch_rejects (s : State) (a : Arr) (sel : Sel) (v : Val)
+    (h : bcast v (assignShape s a sel) = none) : ∃ e, assign a sel v s = (.error e, s) ∧ (e = .value ∨ e = .type) := by
+  unfold assign
+  simp only []
+  split
+  · exact ⟨_, rfl, Or.inl rfl⟩
+  · split
+    · exact ⟨_, rfl, Or.inr rfl⟩
+    · have h' : bcast v (if sel.scalar = true then (s.buf a.buf).trail else sel.count :: (s.buf a.buf).trail) = none := h
+      simp only [h']
+      exact ⟨_, rfl, Or.inl rfl⟩
+
+/-- an integer-list index with an entry out of bounds: IndexError, nothing is written. -/
+theorem assign_oob_rejects (s : State) (a : Arr) (sel : Sel) (v : Val) (flat : List Cell)
+    (hb : bcast v (assignShape s a sel) = some flat) (hoob : sel.oob = true)
+    (h1 : ¬ (sel.scalar = true ∧ (s.buf a.buf).trail = [] ∧ v.shape ≠ []))
+    (h2 : ¬ (sel.mask = true ∧ (s.buf a.buf).trail = [] ∧ v.shape.length > 1)) :
+    assign a sel v s = (.error .index, s) := by
+  unfold assign
+  have h' : bcast v (if sel.scalar = true then (s.buf a.buf).trail else sel.count :: (s.buf a.buf).trail) = some flat := hb
+  simp only [h1, h2, if_false, h', hoob, if_true]
+
+/-- `atoms[index] = other` with different property sets: ValueError, nothing changes. -/
+theorem setItem_keys_mismatch_rejects (s : State) (o : Nat) (ix : Index) (src : Nat)
+    (h : sameKeys (s.obj src).keys (s.obj o).keys = false) : setItem o ix src s = (.error .value, s) := by
+  apply eq_of_post
+  unfold setItem
+  rw [post_bind_getS]
+  simp only []
+  have hc : ¬ sameKeys (s.obj src).keys (s.obj o).keys = true := by simp [h]
+  rw [if_pos hc, post_fail]
+  exact ⟨rfl, rfl⟩
+
+theorem resolve_int_out_of_range (n : Nat) (i : Int) (h : (n : Int) ≤ i ∨ i < -(n : Int)) :
+    resolve n (.int i) = .error .index := by
+  have : normInt n i = none := by
+    unfold normInt
+    rcases h with h | h
+    · have h1 : ¬ (0 ≤ i ∧ i < n) := by omega
+      have h2 : ¬ (-(n : Int) ≤ i ∧ i < 0) := by omega
+      simp [h1, h2]
+    · have h1 : ¬ (0 ≤ i ∧ i < n) := by omega
+      have h2 : ¬ (-(n : Int) ≤ i ∧ i < 0) := by omega
+      simp [h1, h2]
+  simp [resolve, this]
+
+theorem resolve_zero_step (n : Nat) (a b : Option Int) : resolve n (.slice a b (some 0)) = .error .value := by
+  simp [resolve]
+
+theorem resolve_mask_length (n : Nat) (m : List Bool) (h1 : m.length ≠ n) (h2 : m.length ≠ 0) :
+    resolve n (.mask m) = .error .index := by
+  simp [resolve, h1, h2]
+
+/-- reading or writing a property that does not exist: KeyError, nothing changes. -/
+theorem propGet_missing_key (s : State) (o : Nat) (key : String) (ix : Option Index)
+    (h : (s.obj o).find key = none) : propGet o key ix s = (.error .key, s) := by
+  apply eq_of_post
+  unfold propGet
+  rw [post_bind_getS, post_bind_keyErr, h]
+  exact ⟨rfl, rfl⟩
+
+theorem pbcSet_bad_length_rejects (s : State) (i : Nat) (value : List Bool) (h : value.length ≠ 3) :
+    pbcSet i value s = (.error .assert, s) := by
+  unfold pbcSet
+  simp only [h, ne_eq, not_false_eq_true, if_true]
+  rfl
+
+theorem sysExtend_scale_int_rejects (s : State) (off : Bool) (i : Nat) (n : Int)
+    (symbols : Option (List (Option String))) : sysExtend off i (.inl n) true symbols s = (.error .value, s) := by
+  apply eq_of_post
+  unfold sysExtend
+  rw [post_bind_getS]
+  simp only [Sum.isLeft, and_self, if_true]
+  exact ⟨rfl, rfl⟩
+
+/-- `prop_atype(key, value)` with a 0-d value: TypeError (`len()` of unsized object). -/
+theorem propAtype_scalar_rejects (s : State) (o : Nat) (key : String) (v : Val) (ta : Arr)
+    (hf : (s.obj o).find "atype" = some ta) (hs : v.shape = []) :
+    propAtype o key v none s = (.error .type, s) := by
+  apply eq_of_post
+  unfold propAtype
+  rw [post_bind_getS, post_bind_keyErr]
+  simp only [hf, hs]
+  exact ⟨rfl, rfl⟩
+
+/-- a failed constructor call leaves no trace (`Atoms(...)` raising creates no object). -/
+theorem mkAtoms_rolls_back (natoms : Option Int) (atype pos : Option Src) (extra : List (String × Src)) (s s' : State)
+    (e : Err) (h : mkAtoms natoms atype pos extra s = (.error e, s')) : s' = s := by
+  unfold mkAtoms atomic at h
+  split at h
+  · cases h
+  · injection h with _ h2; exact h2.symm
+
+/-- malformed literals / dangling ids are `format` errors and change nothing; an outcome outside the
+    modelled numpy fragment leaves the state untouched. -/
+theorem step_format (off : Bool) (s : State) (op : Op) (h : ¬ (op.litsOk = true ∧ op.idsOk s = true)) :
+    stepWith off s op = (.error .format, s) := by
+  unfold stepWith
+  simp only [h, not_false_eq_true, if_true]
+
+theorem step_unmodelled (off : Bool) (s : State) (op : Op) (h : (stepWith off s op).1 = .error .unmodelled) :
+    (stepWith off s op).2 = s := by
+  unfold stepWith at h ⊢
+  by_cases hc : (op.litsOk = true ∧ op.idsOk s = true)
+  · simp only [hc, not_true_eq_false, if_false] at h ⊢
+    cases hrun : run off op s with
+    | mk r s2 =>
+      rw [hrun] at h
+      cases r with
+      | ok out => simp at h
+      | error e =>
+        cases e <;> simp at h ⊢
+  · simp only [hc, not_false_eq_true, if_true]
+
 end Atomman.C06
